@@ -146,6 +146,14 @@ def main(argv=None):
         shutil.rmtree(work, ignore_errors=True)
 
 
+def _is_private_anchor(a):
+    qual = a.split(":", 1)[1]
+    if "<locals>" in qual:
+        return True
+    last = qual.rsplit(".", 1)[-1]
+    return last.startswith("_") and not (last.startswith("__") and last.endswith("__"))
+
+
 def merge(results):
     counters = collections.Counter()
     violations, keys, samples, entered, errors = [], set(), [], set(), []
@@ -188,8 +196,11 @@ def verdict(prop, wl, tier, seed, results, t0, total, nshards):
         if n == 0:
             reasons.append(f"deciding monitor {m} never evaluated")
     missing = [a for a in wl.ANCHORS if a not in entered]
-    if missing and not errors:
-        reasons.append("anchored functions never entered: " + ", ".join(missing))
+    # private helpers and local handler functions may be renamed or inlined by a harmless refactoring: their absence is
+    # reported in the evidence but only a *public* anchored function that was never entered makes the run inconclusive
+    hard_missing = [a for a in missing if not _is_private_anchor(a)]
+    if hard_missing and not errors:
+        reasons.append("anchored public functions never entered: " + ", ".join(hard_missing))
     if len(keys) < 2 and not unknown:
         reasons.append(f"only {len(keys)} distinct non-trivial cases")
     wall = round(time.time() - t0, 2)
